@@ -276,7 +276,7 @@ class Check:
         self.cov["disagreements_checked"] = self.cov["evaluations"]
         # a broken obligation or tie without a failing input is still a violation
         if self.broken and not [v for v in self.violations if not v[2]]:
-            self.violation("no longer shown to hold: " + "; ".join(self.broken), {"broken": self.broken}, no_input=True)
+            self.violation("no longer shown to hold: " + "; ".join(self.broken), {"broken": self.broken, "diverging_run": getattr(self, "replay_extra", None)}, no_input=True)
         ev = {
             "property_id": self.pid, "tier": self.tier, "seed": self.seed, "level": "proof",
             "coverage": dict(self.cov,
